@@ -638,19 +638,25 @@ func (pr *ProtoArray) OnPrune(ctx context.Context, anchorRoot Root, anchorSlot S
 		// update offset
 		pr.indexOffset++
 	}
-	if err == nil {
-		// Blocks built on the anchor root hang off the lowest node known for that root (see ProcessBlock).
-		// That node is the anchor from now on: move those that pointed at a pruned gap-slot predecessor.
-		anchorNode := &pr.nodes[anchorIndex-pr.indexOffset]
-		for i := range pr.nodes {
-			node := &pr.nodes[i]
-			if node.ForkchoiceParent != NONE && node.ForkchoiceParent < pr.indexOffset &&
-				node.ParentRoot == anchorRoot && node.Ref.Root != anchorRoot && node.Ref.Slot > anchorSlot {
-				node.ForkchoiceParent = anchorIndex
-				anchorNode.Weight += node.Weight
-				pr.updatedConnections = false
-			}
+	// Blocks hang off the lowest node known for their parent root (see ProcessBlock). Where that node was just pruned
+	// and the root lives on (the anchor root after a complete prune, any root after a prune the sink cut short),
+	// the root's new lowest node takes over: move those blocks, with their weight.
+	for i := range pr.nodes {
+		node := &pr.nodes[i]
+		if node.ForkchoiceParent == NONE || node.ForkchoiceParent >= pr.indexOffset || node.Ref.Root == node.ParentRoot {
+			continue
 		}
+		lowest, ok := pr.blockSlots[node.ParentRoot]
+		if !ok || lowest >= node.Ref.Slot {
+			continue
+		}
+		parentIndex, ok := pr.indices[NodeRef{Root: node.ParentRoot, Slot: lowest}]
+		if !ok {
+			continue
+		}
+		node.ForkchoiceParent = parentIndex
+		pr.nodes[parentIndex-pr.indexOffset].Weight += node.Weight
+		pr.updatedConnections = false
 	}
 	return err
 }
